@@ -132,3 +132,17 @@ CHECKS["C18"] = {
     "level_text": "Equivalence-relation laws, variant separation, payload agreement and hash agreement are executed for every pair of a pool constructed to contain every special case the hand-written match must handle; exhaustive over the pool, which is the finite space the property names.",
     "level_note": "Trusted: the independent oracle in c18.rs. Only the pool's values are decided.",
 }
+
+CHECKS["C06"] = {
+    "parts": BASE,
+    "level": "exploration",
+    "technique": "runtime monitor: Kleene three-valued reference evaluator vs rows selected by the real SQLite engine over all 81 assignments of {1,0,NULL} to four atoms, for bounded-exhaustive condition-tree shapes and call histories in 7 statement contexts, inline and parameterised",
+    "rule": "cases: every tree shape (any/all x negate x 0..3 members; member = leaf or group) of depth <= 2 / width <= 3 (20,896 shapes) as one cond_where in SELECT..WHERE, plain and wrapped in a negated group (separates FALSE from NULL), 10% (quick) / all (thorough) of them in another context (DELETE, UPDATE, JOIN ON, HAVING, CASE WHEN, hidden and_or_where AND-chain); every call history of length 0..3 over cond_where(depth-1 shape) / and_where / and_where_option(None|Some); every depth-3 width<=2 shape (thorough); random trees of depth <= 6, width <= 5. Leaves take 12 syntactic forms (col = 1, bare column, NOT col, IS NULL, ABS(col), IN (1), CASE, TRUE, FALSE, <> 0, an OR-shaped and an AND-shaped expression). Atoms and forms of the exhaustive shapes are drawn at random. Non-trivial = every executed (context, history); distinct = distinct (context, history text)",
+    "assumptions": [
+        "depth 3 x width 3 (~1e13 shapes) is sampled only — the property's own bound is not reached there",
+        "truth of a row = the row is selected / deleted / updated / flagged; NULL vs FALSE is separated by also checking the negated history",
+    ],
+    "design_ref": "DESIGN.md §5 C06",
+    "level_text": "The rows a real engine selects are compared with a 15-line Kleene evaluator for every assignment of the atoms, for every tree shape up to the bound and every short call history, in every statement context that takes conditions. This is the truth-table comparison the property calls for.",
+    "level_note": "Trusted: the Kleene model and SQLite 3.40.1's evaluation of the leaf forms. MySQL/Postgres renderings of conditions share the code path; their parenthesisation is covered by C05.",
+}
